@@ -98,17 +98,19 @@ def BitReader.afterError (r : BitReader) : Err → BitReader
 
 /-! ## canonical Huffman code (`huffman.rs`) -/
 
-/-- `i32 << d`: panics for `d ≥ 32` (overflow checks), loses the bits shifted out -/
+/-- `x.checked_shl(d).unwrap_or(0)`: every bit is shifted out for `d ≥ 32`; loses the bits shifted out
+(after the fix `cram-encoding-decoders-panic`: before it `d ≥ 32` was a panic under overflow checks) -/
 def shl32 (x : Int) (d : Nat) : Res Int :=
-  if d ≥ 32 then .error .panic else .ok (ofU 32 (toU 32 x * 2 ^ d % 2 ^ 32))
+  if d ≥ 32 then .ok 0 else .ok (ofU 32 (toU 32 x * 2 ^ d % 2 ^ 32))
 
-/-- `i32 + i32` under overflow checks -/
+/-- `i32::wrapping_add` (after the fix `cram-encoding-decoders-panic`: before it an overflow was a panic) -/
 def add32 (x y : Int) : Res Int :=
-  if -2 ^ 31 ≤ x + y ∧ x + y < 2 ^ 31 then .ok (x + y) else .error .panic
+  if -2 ^ 31 ≤ x + y ∧ x + y < 2 ^ 31 then .ok (x + y) else .ok (ofU 32 (toU 32 (x + y)))
 
-/-- `i32 - i32` under overflow checks -/
+/-- `i32::checked_sub(..).ok_or(InvalidData "value overflow")` (after the fix
+`cram-encoding-decoders-panic`: before it an overflow was a panic) -/
 def sub32 (x y : Int) : Res Int :=
-  if -2 ^ 31 ≤ x - y ∧ x - y < 2 ^ 31 then .ok (x - y) else .error .panic
+  if -2 ^ 31 ≤ x - y ∧ x - y < 2 ^ 31 then .ok (x - y) else .error .invalidData
 
 def insertBy {α : Type} (le : α → α → Bool) (x : α) : List α → List α
   | [] => [x]
@@ -145,10 +147,11 @@ def assignCodes : Int → Nat → List (Int × Nat) → Res (List Entry)
 def insertBook (book : List Entry) (e : Entry) : List Entry :=
   if book.any (·.sym == e.sym) then book.map (fun x => if x.sym == e.sym then e else x) else book ++ [e]
 
-/-- `build_canonical_code_book`; `sorted_alphabet[0]` panics on an empty (zipped) alphabet -/
+/-- `build_canonical_code_book`; an empty (zipped) alphabet has an empty code book (after the fix
+`cram-encoding-decoders-panic`: before it `sorted_alphabet[0]` panicked) -/
 def buildCodeBook (alphabet : List Int) (lens : List Nat) : Res (List Entry) :=
   match isort keyLe (alphabet.zip lens) with
-  | [] => .error .panic
+  | [] => .ok []
   | (s, l) :: rest =>
     match assignCodes 0 l ((s, l) :: rest) with
     | .error e => .error e
